@@ -2,6 +2,7 @@ package checks
 
 import (
 	"fmt"
+	"os"
 	"runtime"
 	"sort"
 	"strings"
@@ -199,6 +200,9 @@ func runC07(c *fw.Ctx) {
 	scen := c.Pick(40, 600)
 	sem := make(chan struct{}, 8)
 	for s := 0; s < scen; s++ {
+		if only := os.Getenv("VERIF_ONLY_SCENARIO"); only != "" && only != fmt.Sprint(s) {
+			continue
+		}
 		wg.Add(1)
 		sem <- struct{}{}
 		go func(s int) {
